@@ -230,6 +230,10 @@ enum End {
     Drop,
     Forget,
     Len(LenAd),
+    /// consuming methods with default implementations in terms of `next`
+    Count,
+    Last,
+    Collect,
 }
 struct Script {
     ad: Ad,
@@ -257,6 +261,9 @@ fn parse_script(t: &[&str]) -> Script {
         ["len", "rev"] => End::Len(LenAd::Rev),
         ["len", "enum"] => End::Len(LenAd::Enum),
         ["len", "peek"] => End::Len(LenAd::Peek),
+        ["count"] => End::Count,
+        ["last"] => End::Last,
+        ["collect"] => End::Collect,
         _ => bad(&format!("iend `{}`", t[1])),
     };
     let n: usize = num(tok(t, 2));
@@ -295,7 +302,7 @@ fn script_ok(full: bool, sc: &Script) -> bool {
     match sc.ad {
         // `it.skip(n)` exists for every iterator, but no call is ever issued
         // through it (Iter.v, ad_step): only the empty script is offered
-        Ad::Skip(_) => sc.steps.is_empty() && !len_end,
+        Ad::Skip(_) => sc.steps.is_empty() && matches!(sc.end, End::Drop | End::Forget),
         Ad::Direct => full || !(has_b || has_l || len_end),
         Ad::Rev => full && !len_end,
         Ad::Take(_) => !has_b && !len_end && (full || !has_l),
@@ -533,12 +540,51 @@ fn run_steps<D: Drive>(d: &mut D, steps: &[Step], ctx: &Ctx, out: &mut String, b
     }
 }
 
-/// drop / forget of whatever the calls were issued on
-fn finish_simple<X>(x: X, end: End) {
+/// `count()` / `last()` / `collect()` of the iterator in its current state
+fn consume<X: Iterator>(x: X, end: End, ctx: &Ctx, out: &mut String)
+where
+    X::Item: Yield,
+{
+    match end {
+        End::Count => {
+            let n = x.count();
+            sep(out);
+            out.push_str("count:");
+            p_u64(out, n as u64);
+        }
+        End::Last => {
+            let l = x.last();
+            sep(out);
+            out.push_str("last:");
+            match l {
+                Some(y) => y.emit(None, None, ctx, out),
+                None => out.push_str("e:-"),
+            }
+        }
+        End::Collect => {
+            let v: Vec<X::Item> = x.collect();
+            sep(out);
+            out.push_str("collect:");
+            p_u64(out, v.len() as u64);
+            for y in v {
+                out.push('/');
+                y.emit(None, None, ctx, out);
+            }
+        }
+        _ => unreachable!(),
+    }
+}
+
+/// drop / forget / consumption of whatever the calls were issued on
+fn finish_simple<X: Iterator>(x: X, end: End, ctx: &Ctx, out: &mut String)
+where
+    X::Item: Yield,
+{
     match end {
         End::Drop => drop(x),
         End::Forget => std::mem::forget(x),
         End::Len(_) => unreachable!("len:* only with adaptor direct"),
+        End::Count | End::Last | End::Collect => consume(x, end, ctx, out),
     }
 }
 /// `.len()` of an adaptor wrapped around the iterator in its current state;
@@ -573,19 +619,20 @@ where
                     };
                     p_len(out, r, bad);
                 }
+                End::Count | End::Last | End::Collect => consume(it, sc.end, ctx, out),
             }
         }
         Ad::Rev => {
             let mut d = Full(it.rev());
             run_steps(&mut d, &sc.steps, ctx, out, bad);
-            finish_simple(d.0, sc.end);
+            finish_simple(d.0, sc.end, ctx, out);
         }
         Ad::Take(n) => {
             let mut d = Exact(it.take(n));
             run_steps(&mut d, &sc.steps, ctx, out, bad);
-            finish_simple(d.0, sc.end);
+            finish_simple(d.0, sc.end, ctx, out);
         }
-        Ad::Skip(n) => finish_simple(it.skip(n), sc.end),
+        Ad::Skip(n) => finish_simple(it.skip(n), sc.end, ctx, out),
     }
 }
 
@@ -598,14 +645,14 @@ where
         Ad::Direct => {
             let mut d = Fwd(it);
             run_steps(&mut d, &sc.steps, ctx, out, bad);
-            finish_simple(d.0, sc.end);
+            finish_simple(d.0, sc.end, ctx, out);
         }
         Ad::Take(n) => {
             let mut d = Fwd(it.take(n));
             run_steps(&mut d, &sc.steps, ctx, out, bad);
-            finish_simple(d.0, sc.end);
+            finish_simple(d.0, sc.end, ctx, out);
         }
-        Ad::Skip(n) => finish_simple(it.skip(n), sc.end),
+        Ad::Skip(n) => finish_simple(it.skip(n), sc.end, ctx, out),
         Ad::Rev => unreachable!(),
     }
 }
